@@ -390,7 +390,10 @@ def check_diagnostics_vs_compiler(tname):
     viol = []
     srv = core.worker_server()
     pr = srv.req({"op": "parse", "src": text})
-    got = fresh_diagnostics("a.ucg", text)
+    try:
+        got = fresh_diagnostics("a.ucg", text)
+    except lsp.ServerDied as e:
+        return [("server-died", {"error": str(e), "on": "didOpen of the text alone"})]
     if "err" in pr and pr.get("pos"):
         line, col = pr["pos"][0], pr["pos"][1]
         ls = text.split("\n")
